@@ -16,7 +16,7 @@ def digest(obj):
     return hashlib.sha256(json.dumps(obj, sort_keys=False, default=repr).encode()).hexdigest()[:24]
 
 
-def main(path):
+def main(path, reverse=False):
     from numba_scfg.core.datastructures.ast_transforms import AST2SCFG, SCFG2AST
     from numba_scfg.core.datastructures.basic_block import SyntheticBlock
     from numba_scfg.core.datastructures.byte_flow import ByteFlow
@@ -24,6 +24,8 @@ def main(path):
     from vpbt import bytecode_model as bm, canon, gen_graphs as gg, models as M
 
     inputs = json.load(open(path))
+    if reverse:
+        inputs = inputs[::-1]
     out = []
     corpus = None
     for inp in inputs:
@@ -72,9 +74,12 @@ def main(path):
                         parts.append(["EXC", type(e).__name__, str(e)[:80]])
         except Exception as e:  # harness problem: make it visible, not silent
             parts.append(["HARNESS", type(e).__name__, str(e)[:200]])
-        out.append([digest(parts), nsynth, parts if inp.get("verbose") else None])
+        raised = sum(1 for x in parts if x and (x[0] == "EXC" or (len(x) > 1 and x[1] == "EXC")))
+        out.append([digest(parts), nsynth, parts if inp.get("verbose") else None, raised])
+    if reverse:
+        out = out[::-1]
     print(json.dumps(out))
 
 
 if __name__ == "__main__":
-    main(sys.argv[1])
+    main(sys.argv[1], len(sys.argv) > 2 and sys.argv[2] == "reverse")
